@@ -17,7 +17,7 @@ CONSTANTS MaxTok
 Tokens == { Codes("0"), Codes("1"), Codes("2"), Codes("10"), Codes("007"), Codes("."), Codes("_"),
             Codes("alpha"), Codes("ALPHA"), Codes("Beta"), Codes("rc"), Codes("pre"), Codes("PRE"),
             Codes("pl"), Codes("nb"), Codes("NB3"), Codes("nb12"), Codes("a"), Codes("b"), Codes("z"),
-            Codes("A"), Codes("Q"), <<233>>, Codes("+"), Codes("-"), Codes("~"), <<178>>, <<1635>>, <<65299>> }
+            Codes("A"), Codes("Q"), <<233>>, Codes("+"), Codes("-"), Codes("~"), <<178>>, <<1635>>, <<65299>>, <<8490>>, <<304>> }
 
 VARIABLES s, n, phase, idx, ver, rev
 vars == <<s, n, phase, idx, ver, rev>>
